@@ -3,7 +3,8 @@ R1 put-call parity and binary complement (identities between two flag cases of t
 continuity of the lookback price where the running maximum crosses the strike; R3 signs of the European Greeks on the open
 domain (monotone/convex in spot, non-decreasing in volatility and time to maturity), range of binary prices; R4 the ordering clauses (call between intrinsic value and
 spot, one-touch between the European binary and 1, lookback above the European call and above the locked-in payoff) by sign
-certificates: positivity by structure, or a signed derivative plus a boundary value / limit."""
+certificates: positivity by structure, or a signed derivative plus a boundary value / limit.
+Third round: R5 the prices are computed in the dtype of their inputs (the inequalities are facts about the formulas; float32 noise breaks them at double resolution)."""
 import sympy as sp
 
 from .. import bsterms as B
